@@ -62,6 +62,12 @@ func run(b *harness.B) {
 		c.OnAccepted = func(cs consensus.State, orig types.Block, bs consensus.V1BlockSupplement, kinds []string) {
 			greedy(b, c, led, cs, orig)
 		}
+		// a generator block the library refuses is still a template: every value-creating or value-destroying
+		// variant of it must be refused too, and an accepted one is judged by the ledger
+		c.OnRejected = func(cs consensus.State, orig types.Block, bs consensus.V1BlockSupplement, kinds []string, err error) {
+			b.Count("greedy_templates_from_rejected_generator_blocks", 1)
+			greedy(b, c, led, cs, orig)
+		}
 		// weights: emphasise everything that moves value between the ledger's accounts
 		w := map[string]int{"v1-arb": 1, "v2-arb": 1, "v2-attest": 1, "v1-sf": 4, "v2-sf": 4, "v1-form": 4, "v2-form": 4, "v2-renew": 4, "v2-expire": 4, "v2-proof": 3, "v1-proof": 3}
 		if fam == "legacywin" {
@@ -175,6 +181,86 @@ func greedy(b *harness.B, c *chaingen.Chain, led *chainmon.Ledger, cs consensus.
 				break
 			}
 		}
+	}
+	// siafund outputs whose 64-bit sum wraps around to the input sum (two extra outputs of 2^63 each)
+	for i, t := range orig.V2Transactions() {
+		if len(t.SiafundInputs) > 0 && len(t.SiafundOutputs) > 0 {
+			blk := chaingen.CloneBlock(orig)
+			tt := &blk.V2.Transactions[i]
+			tt.SiafundOutputs = append(tt.SiafundOutputs, types.SiafundOutput{Value: 1 << 63, Address: types.VoidAddress}, types.SiafundOutput{Value: 1 << 63, Address: types.VoidAddress})
+			blk.V2.Transactions = blk.V2.Transactions[:i+1]
+			c.SignV2(cs, tt, nil)
+			try("v2-siafund-outputs-wrap-around-2^64", blk)
+			break
+		}
+	}
+	for i, t := range orig.Transactions {
+		if len(t.SiafundInputs) > 0 && len(t.SiafundOutputs) > 0 {
+			blk := chaingen.CloneBlock(orig)
+			tt := &blk.Transactions[i]
+			tt.SiafundOutputs = append(tt.SiafundOutputs, types.SiafundOutput{Value: 1 << 63, Address: types.VoidAddress}, types.SiafundOutput{Value: 1 << 63, Address: types.VoidAddress})
+			blk.Transactions = blk.Transactions[:i+1]
+			if blk.V2 != nil {
+				blk.V2.Transactions = nil
+			}
+			c.SignV1(cs, tt, nil)
+			try("v1-siafund-outputs-wrap-around-2^64", blk)
+			break
+		}
+	}
+	// miner payout that differs from reward + fees: sealed honestly, then the payout is changed and the block re-mined
+	payout := func(name string, change func(total types.Currency) (types.Currency, bool)) {
+		blk := chaingen.CloneBlock(orig)
+		miner := types.VoidAddress
+		if len(blk.MinerPayouts) > 0 {
+			miner = blk.MinerPayouts[0].Address
+		}
+		if c.Seal(cs, &blk, miner, 1, nil) != nil {
+			return
+		}
+		v, ok := change(blk.MinerPayouts[0].Value)
+		if !ok {
+			return
+		}
+		blk.MinerPayouts[0].Value = v
+		if chaingen.Mine(cs, &blk) != nil {
+			return
+		}
+		bs := c.SupplementFor(blk)
+		err := consensus.ValidateBlock(cs, blk, bs)
+		b.Eval(1)
+		b.Count("greedy_variants", 1)
+		b.Distinct("greedy", name, chaingen.Era(c.Net.N, cs.Index.Height+1))
+		if err != nil {
+			b.Count("greedy_variants_rejected", 1)
+			b.SetAdd("greedy_rejections", name+" => "+chaingen.NormErr(err))
+			return
+		}
+		next, au := consensus.ApplyBlock(cs, blk, bs, c.AncestorTimestamp(cs.Index.Height))
+		l2 := led.Clone()
+		l2.OnApply(chaingen.ApplyEvent{Prev: cs, Next: next, Block: blk, Supp: bs, AU: au, Kinds: []string{"greedy:" + name}})
+		b.Count("greedy_variants_accepted_and_judged_by_the_ledger", 1)
+	}
+	var v1Fees, v2Fees types.Currency
+	for _, t := range orig.Transactions {
+		for _, f := range t.MinerFees {
+			v1Fees = v1Fees.Add(f)
+		}
+	}
+	for _, t := range orig.V2Transactions() {
+		v2Fees = v2Fees.Add(t.MinerFee)
+	}
+	payout("miner-payout-exceeds-reward-plus-fees-by-one-hasting", func(t types.Currency) (types.Currency, bool) { return t.Add(one), true })
+	payout("miner-payout-below-reward-plus-fees-by-one-hasting", func(t types.Currency) (types.Currency, bool) { return t.Sub(one), true })
+	if !v1Fees.IsZero() {
+		name := "miner-payout-omits-v1-fees/v1-block"
+		if orig.V2 != nil {
+			name = "miner-payout-omits-v1-fees/v2-block"
+		}
+		payout(name, func(t types.Currency) (types.Currency, bool) { return t.Sub(v1Fees), true })
+	}
+	if !v2Fees.IsZero() {
+		payout("miner-payout-omits-v2-fees", func(t types.Currency) (types.Currency, bool) { return t.Sub(v2Fees), true })
 	}
 	for i, t := range orig.Transactions {
 		if len(t.SiacoinOutputs) > 0 && len(t.SiacoinInputs) > 0 && len(t.StorageProofs) == 0 {
